@@ -83,10 +83,16 @@ Proof. unfold f_register. dmatch; cbn; split; reflexivity. Qed.
 Lemma send_to_retrier_mgr s t l : f_tasks (send_to_retrier s t l) = f_tasks s /\ f_mgr (send_to_retrier s t l) = f_mgr s.
 Proof. unfold send_to_retrier. dmatch; cbn; split; reflexivity. Qed.
 
+Lemma rev_pend_mgr s l t b : f_tasks (fst (rev_pend s l t b)) = f_tasks s /\ f_mgr (fst (rev_pend s l t b)) = f_mgr s.
+Proof.
+  unfold rev_pend. dmatch; cbn [fst]; try (split; reflexivity);
+    match goal with |- context [send_to_retrier ?x ?y ?z] => destruct (send_to_retrier_mgr x y z) as [-> ->] end; split; reflexivity.
+Qed.
+
 Lemma rev_tower_mgr s l t st rp : f_tasks (fst (rev_tower s l t st rp)) = f_tasks s /\ f_mgr (fst (rev_tower s l t st rp)) = f_mgr s.
 Proof.
   unfold rev_tower. dmatch; cbn [fst]; try (split; reflexivity);
-    try (match goal with |- context [send_to_retrier ?x ?y ?z] => destruct (send_to_retrier_mgr x y z) as [-> ->] end; split; reflexivity).
+    match goal with |- context [rev_pend ?x ?y ?z ?w] => destruct (rev_pend_mgr x y z w) as [-> ->] end; split; reflexivity.
 Qed.
 
 Lemma rev_loop_mgr l replies snap : forall s, f_tasks (fst (rev_loop s l snap replies)) = f_tasks s /\ f_mgr (fst (rev_loop s l snap replies)) = f_mgr s.
@@ -631,7 +637,7 @@ Qed.
 
 (* the shape every primitive result has: either the database is untouched (skipped, or the transaction failed
    and the mutex is poisoned), or the write happened and the mutex is healthy *)
-Definition healthy_or_abort (c' : client) (r : cres) : Prop := c_poisoned c' = false \/ exists st, r = RAbort st.
+Definition healthy_or_abort (c' : client) (r : cres) : Prop := c_poisoned c' = if is_abort r then true else false.
 
 Lemma prim_add_receipt c t l slots sb u g c' r :
   Inv c -> c_poisoned c = false -> wt_add_appointment_receipt c t l slots sb u g = (c', r) ->
@@ -646,15 +652,15 @@ Proof.
   intros HI Hp E. pose proof (Inv_add_receipt c t l slots sb u g HI Hp) as HI'. rewrite E in HI'. cbn [fst] in HI'.
   split; [exact HI'|]. revert E. unfold wt_add_appointment_receipt.
   destruct (aget (c_towers c) t) as [su|] eqn:Et.
-  2:{ intros E. inversion E. subst. repeat split; auto; try (left; assumption). intros _ Hk. unfold knownc, amem in Hk. rewrite Et in Hk. discriminate. }
+  2:{ intros E. inversion E. subst. unfold healthy_or_abort; cbn [is_abort]. repeat split; auto; try (left; assumption). intros _ Hk. unfold knownc, amem in Hk. rewrite Et in Hk. discriminate. }
   destruct (dbm_load_appointment_receipt (c_db c) t l) as [rc|] eqn:El.
-  { intros E. inversion E. subst. repeat split; auto; try (left; assumption). intros _ _.
+  { intros E. inversion E. subst. unfold healthy_or_abort; cbn [is_abort]. repeat split; auto; try (left; assumption). intros _ _.
     unfold dbm_load_appointment_receipt in El. apply find_pk_Some in El. destruct El as [A B].
     cbn in B. exists rc. split; [exact A|]. inversion B. split; reflexivity. }
   destruct (dbm_store_appointment_receipt (c_db c) t l slots sb u g) as [d'|e] eqn:Es; intros E; inversion E; subst; clear E.
   - cbn [c_retriers c_db c_towers c_poisoned with_db with_towers]. split; [reflexivity|]. split.
     { intros k. unfold stat. cbn [c_towers with_db with_towers]. eapply stat_aset_same_status; [exact Et|reflexivity]. }
-    split; [left; exact Hp|].
+    split; [exact Hp|].
     destruct (store_receipt_spec _ _ _ _ _ _ _ _ (proj1 HI) Es) as [_ [T0 Hfr]].
     pose proof (store_receipt_rows _ _ _ _ _ _ _ _ Es) as T5.
     split.
@@ -665,7 +671,7 @@ Proof.
     + intros _ _. apply (proj2 (Rrow_app _ _ _ _ _ _ _ t l T5)). right. split; reflexivity.
   - cbn [c_retriers c_db c_towers c_poisoned poison with_towers]. split; [reflexivity|]. split.
     { intros k. unfold stat. cbn [c_towers poison with_towers]. eapply stat_aset_same_status; [exact Et|reflexivity]. }
-    split; [right; eexists; reflexivity|]. split; [left; reflexivity|discriminate].
+    split; [reflexivity|]. split; [left; reflexivity|discriminate].
 Qed.
 
 Lemma prim_add_pending c t l b dl c' r :
@@ -680,23 +686,23 @@ Proof.
   intros HI Hp E. pose proof (Inv_add_pending c t l b dl HI Hp) as HI'. rewrite E in HI'. cbn [fst] in HI'.
   split; [exact HI'|]. revert E. unfold wt_add_pending_appointment.
   destruct (aget (c_towers c) t) as [su|] eqn:Et.
-  2:{ intros E. inversion E. subst. repeat split; auto; try (left; assumption). intros _ Hk. unfold knownc, amem in Hk. rewrite Et in Hk. discriminate. }
+  2:{ intros E. inversion E. subst. unfold healthy_or_abort; cbn [is_abort]. repeat split; auto; try (left; assumption). intros _ Hk. unfold knownc, amem in Hk. rewrite Et in Hk. discriminate. }
   destruct (memN l (su_pending su)) eqn:Em.
-  { intros E. inversion E. subst. repeat split; auto; try (left; assumption). intros _ _.
+  { intros E. inversion E. subst. unfold healthy_or_abort; cbn [is_abort]. repeat split; auto; try (left; assumption). intros _ _.
     destruct HI as [HD HM]. destruct (proj1 (HM Hp) t su Et) as [tr [rr [_ [_ [_ [_ [_ [_ [C5 _]]]]]]]]].
     apply memN_In in Em. apply C5 in Em. apply In_pending_locators in Em. destruct Em as [row [A [B C]]].
     exists row. repeat split; assumption. }
   destruct (dbm_store_pending_appointment (c_db c) t l b dl) as [d'|e] eqn:Es; intros E; inversion E; subst; clear E.
   - cbn [c_retriers c_db c_towers c_poisoned with_db with_towers]. split; [reflexivity|]. split.
     { intros k. unfold stat. cbn [c_towers with_db with_towers]. eapply stat_aset_same_status; [exact Et|reflexivity]. }
-    split; [left; exact Hp|].
+    split; [exact Hp|].
     destruct (store_pending_spec _ _ _ _ _ _ (proj1 HI) Es) as [_ [T2 Hfr]].
     split.
     + right. repeat split; auto. unfold knownc, amem. rewrite Et. reflexivity.
     + intros _ _. apply (proj2 (Prow_app _ _ _ _ t l T2)). right. split; reflexivity.
   - cbn [c_retriers c_db c_towers c_poisoned poison with_towers]. split; [reflexivity|]. split.
     { intros k. unfold stat. cbn [c_towers poison with_towers]. eapply stat_aset_same_status; [exact Et|reflexivity]. }
-    split; [right; eexists; reflexivity|]. split; [left; reflexivity|discriminate].
+    split; [reflexivity|]. split; [left; reflexivity|discriminate].
 Qed.
 
 Lemma prim_add_invalid c t l b dl c' r :
@@ -711,23 +717,23 @@ Proof.
   intros HI Hp E. pose proof (Inv_add_invalid c t l b dl HI Hp) as HI'. rewrite E in HI'. cbn [fst] in HI'.
   split; [exact HI'|]. revert E. unfold wt_add_invalid_appointment.
   destruct (aget (c_towers c) t) as [su|] eqn:Et.
-  2:{ intros E. inversion E. subst. repeat split; auto; try (left; assumption). intros _ Hk. unfold knownc, amem in Hk. rewrite Et in Hk. discriminate. }
+  2:{ intros E. inversion E. subst. unfold healthy_or_abort; cbn [is_abort]. repeat split; auto; try (left; assumption). intros _ Hk. unfold knownc, amem in Hk. rewrite Et in Hk. discriminate. }
   destruct (memN l (su_invalid su)) eqn:Em.
-  { intros E. inversion E. subst. repeat split; auto; try (left; assumption). intros _ _.
+  { intros E. inversion E. subst. unfold healthy_or_abort; cbn [is_abort]. repeat split; auto; try (left; assumption). intros _ _.
     destruct HI as [HD HM]. destruct (proj1 (HM Hp) t su Et) as [tr [rr [_ [_ [_ [_ [_ [_ [_ C6]]]]]]]]].
     apply memN_In in Em. apply C6 in Em. apply In_invalid_locators in Em. destruct Em as [row [A [B C]]].
     exists row. repeat split; assumption. }
   destruct (dbm_store_invalid_appointment (c_db c) t l b dl) as [d'|e] eqn:Es; intros E; inversion E; subst; clear E.
   - cbn [c_retriers c_db c_towers c_poisoned with_db with_towers]. split; [reflexivity|]. split.
     { intros k. unfold stat. cbn [c_towers with_db with_towers]. eapply stat_aset_same_status; [exact Et|reflexivity]. }
-    split; [left; exact Hp|].
+    split; [exact Hp|].
     destruct (store_invalid_spec _ _ _ _ _ _ (proj1 HI) Es) as [_ [T2 Hfr]].
     split.
     + right. repeat split; auto. unfold knownc, amem. rewrite Et. reflexivity.
     + intros _ _. apply (proj2 (Irow_app _ _ _ _ t l T2)). right. split; reflexivity.
   - cbn [c_retriers c_db c_towers c_poisoned poison with_towers]. split; [reflexivity|]. split.
     { intros k. unfold stat. cbn [c_towers poison with_towers]. eapply stat_aset_same_status; [exact Et|reflexivity]. }
-    split; [right; eexists; reflexivity|]. split; [left; reflexivity|discriminate].
+    split; [reflexivity|]. split; [left; reflexivity|discriminate].
 Qed.
 
 (* remove_pending_appointment of a pending row: never aborts *)
@@ -771,15 +777,15 @@ Proof.
   intros HI Hp E. pose proof (Inv_flag_misbehaving c t l sb u g rc HI Hp) as HI'. rewrite E in HI'. cbn [fst] in HI'.
   split; [exact HI'|]. revert E. unfold wt_flag_misbehaving_tower.
   destruct (aget (c_towers c) t) as [su|] eqn:Et.
-  2:{ intros E. inversion E. subst. split; [reflexivity|]. split; [left; exact Hp|]. left. split; reflexivity. }
+  2:{ intros E. inversion E. subst. split; [reflexivity|]. split; [exact Hp|]. left. split; reflexivity. }
   destruct (dbm_store_misbehaving_proof (c_db c) t l sb u g rc) as [d'|e] eqn:Es; intros E; inversion E; subst; clear E.
-  - cbn [c_retriers c_db c_towers c_poisoned with_db with_towers]. split; [reflexivity|]. split; [left; exact Hp|].
+  - cbn [c_retriers c_db c_towers c_poisoned with_db with_towers]. split; [reflexivity|]. split; [exact Hp|].
     right. destruct (store_proof_spec _ _ _ _ _ _ _ _ (proj1 HI) Es) as [_ Hfr].
     destruct (store_proof_rows _ _ _ _ _ _ _ _ Es) as [T5 T6].
     repeat split; auto.
     + unfold knownc, amem. rewrite Et. reflexivity.
     + intros k. unfold stat. cbn [c_towers with_db with_towers]. rewrite aget_aset. destruct (N.eqb k t); reflexivity.
-  - cbn [c_retriers c_db c_towers c_poisoned poison]. split; [reflexivity|]. split; [right; eexists; reflexivity|].
+  - cbn [c_retriers c_db c_towers c_poisoned poison]. split; [reflexivity|]. split; [reflexivity|].
     left. split; reflexivity.
 Qed.
 
@@ -824,7 +830,7 @@ Proof.
       (forall k, Trow (c_db c') k <-> Trow (c_db c) k \/ k = t) /\
       (forall tb, tb <> T_towers -> tb <> T_registration_receipts -> tbl (c_db c') tb = tbl (c_db c) tb)))).
   { unfold store. destruct (dbm_store_tower_record (c_db c) t addr slots start expiry sg) as [d'|e] eqn:Es; intros E; inversion E; subst; clear E.
-    - cbn [c_retriers c_db c_towers c_poisoned with_db with_towers]. split; [reflexivity|]. split; [left; exact Hp|]. right.
+    - cbn [c_retriers c_db c_towers c_poisoned with_db with_towers]. split; [reflexivity|]. split; [exact Hp|]. right.
       destruct (store_tower_spec _ _ _ _ _ _ _ _ (proj1 HI) Es) as [_ [T4 [T0 Hfr]]].
       repeat split; auto.
       + intros k. unfold stat. cbn [c_towers with_db with_towers]. rewrite aget_aset. destruct (N.eqb k t); [|reflexivity].
@@ -838,15 +844,15 @@ Proof.
           apply (Trow_map _ _ _ t T0 (upd_tower_key t addr slots)). apply tower_row_iff. exact Eh.
         * unfold Trow. rewrite T0. intros [[row [A B]]| ->]; [exists row; split; [apply in_or_app; left; exact A|exact B]|].
           exists [t; addr; slots]. split; [apply in_or_app; right; left; reflexivity|reflexivity].
-    - cbn [c_retriers c_db c_poisoned poison]. split; [reflexivity|]. split; [right; eexists; reflexivity|]. left. split; reflexivity. }
+    - cbn [c_retriers c_db c_poisoned poison]. split; [reflexivity|]. split; [reflexivity|]. left. split; reflexivity. }
   destruct (aget (c_towers c) t) as [su|] eqn:Et; [|exact Hstore].
   destruct (N.leb expiry (su_expiry su)).
-  { intros E. inversion E. subst. split; [reflexivity|]. split; [left; exact Hp|]. left. split; reflexivity. }
+  { intros E. inversion E. subst. split; [reflexivity|]. split; [exact Hp|]. left. split; reflexivity. }
   destruct (load_tower_record (c_db c) t) as [|info|st].
-  - intros E. inversion E. subst. split; [reflexivity|]. split; [right; eexists; reflexivity|]. left. split; reflexivity.
+  - intros E. inversion E. subst. split; [reflexivity|]. split; [reflexivity|]. left. split; reflexivity.
   - destruct (N.leb slots (ti_slots info)); [|exact Hstore].
-    intros E. inversion E. subst. split; [reflexivity|]. split; [left; exact Hp|]. left. split; reflexivity.
-  - intros E. inversion E. subst. split; [reflexivity|]. split; [right; eexists; reflexivity|]. left. split; reflexivity.
+    intros E. inversion E. subst. split; [reflexivity|]. split; [exact Hp|]. left. split; reflexivity.
+  - intros E. inversion E. subst. split; [reflexivity|]. split; [reflexivity|]. left. split; reflexivity.
 Qed.
 
 Lemma prim_remove_tower c t c' r :
@@ -1126,3 +1132,183 @@ Qed.
 
 Lemma FInv_restart s : FInv s -> FInv (f_restart s).
 Proof. intros HF. apply FInv_restart_with; [exact HF|apply HF]. Qed.
+
+(* ---- abandontower ---- *)
+Lemma Rrow_filter d d' t k l :
+  tbl d' T_appointment_receipts = filter (fun row => negb (row_of_tower T_appointment_receipts t row)) (tbl d T_appointment_receipts) ->
+  (Rrow d' k l <-> Rrow d k l /\ k <> t).
+Proof.
+  unfold Rrow. intros ->. unfold row_of_tower. cbn [tower_col Nat.eqb T_towers T_pending_appointments T_invalid_appointments T_registration_receipts T_appointment_receipts].
+  split.
+  - intros [r [A [B C]]]. apply filter_In in A. destruct A as [A1 A2]. split; [exists r; auto|].
+    intros ->. rewrite C, N.eqb_refl in A2. discriminate.
+  - intros [[r [A [B C]]] Hn]. exists r. split; [|auto]. apply filter_In. split; [exact A|]. rewrite C. apply negb_true_iff, N.eqb_neq. exact Hn.
+Qed.
+Lemma Prow_filter d d' t k l :
+  tbl d' T_pending_appointments = filter (fun row => negb (row_of_tower T_pending_appointments t row)) (tbl d T_pending_appointments) ->
+  (Prow d' k l <-> Prow d k l /\ k <> t).
+Proof.
+  unfold Prow. intros ->. unfold row_of_tower. cbn [tower_col Nat.eqb T_towers T_pending_appointments].
+  split.
+  - intros [r [A [B C]]]. apply filter_In in A. destruct A as [A1 A2]. split; [exists r; auto|].
+    intros ->. rewrite C, N.eqb_refl in A2. discriminate.
+  - intros [[r [A [B C]]] Hn]. exists r. split; [|auto]. apply filter_In. split; [exact A|]. rewrite C. apply negb_true_iff, N.eqb_neq. exact Hn.
+Qed.
+Lemma Irow_filter d d' t k l :
+  tbl d' T_invalid_appointments = filter (fun row => negb (row_of_tower T_invalid_appointments t row)) (tbl d T_invalid_appointments) ->
+  (Irow d' k l <-> Irow d k l /\ k <> t).
+Proof.
+  unfold Irow. intros ->. unfold row_of_tower. cbn [tower_col Nat.eqb T_towers T_pending_appointments T_invalid_appointments].
+  split.
+  - intros [r [A [B C]]]. apply filter_In in A. destruct A as [A1 A2]. split; [exists r; auto|].
+    intros ->. rewrite C, N.eqb_refl in A2. discriminate.
+  - intros [[r [A [B C]]] Hn]. exists r. split; [|auto]. apply filter_In. split; [exact A|]. rewrite C. apply negb_true_iff, N.eqb_neq. exact Hn.
+Qed.
+Lemma Mrow_filter d d' t k :
+  tbl d' T_misbehaving_proofs = filter (fun row => negb (row_of_tower T_misbehaving_proofs t row)) (tbl d T_misbehaving_proofs) ->
+  (Mrow d' k <-> Mrow d k /\ k <> t).
+Proof.
+  unfold Mrow. intros ->. unfold row_of_tower.
+  cbn [tower_col Nat.eqb T_towers T_pending_appointments T_invalid_appointments T_registration_receipts T_appointment_receipts T_misbehaving_proofs].
+  split.
+  - intros [r [A C]]. apply filter_In in A. destruct A as [A1 A2]. split; [exists r; auto|].
+    intros ->. rewrite C, N.eqb_refl in A2. discriminate.
+  - intros [[r [A C]] Hn]. exists r. split; [|auto]. apply filter_In. split; [exact A|]. rewrite C. apply negb_true_iff, N.eqb_neq. exact Hn.
+Qed.
+Lemma Trow_filter d d' t k :
+  tbl d' T_towers = filter (fun row => negb (row_of_tower T_towers t row)) (tbl d T_towers) ->
+  (Trow d' k <-> Trow d k /\ k <> t).
+Proof.
+  unfold Trow. intros ->. unfold row_of_tower. cbn [tower_col Nat.eqb T_towers].
+  split.
+  - intros [r [A C]]. apply filter_In in A. destruct A as [A1 A2]. split; [exists r; auto|].
+    intros ->. rewrite C, N.eqb_refl in A2. discriminate.
+  - intros [[r [A C]] Hn]. exists r. split; [|auto]. apply filter_In. split; [exact A|]. rewrite C. apply negb_true_iff, N.eqb_neq. exact Hn.
+Qed.
+
+Lemma FInv_abandon s t : FInv s -> FInv (fst (f_abandon s t)).
+Proof.
+  intros HF. unfold f_abandon. destruct (poisoned s) eqn:Hp; [exact HF|].
+  destruct (amem (c_towers (f_c s)) t) eqn:Ek; [|exact HF].
+  set (s0 := match db_delete CS (c_db (f_c s)) T_towers [C_towers_tower_id] [t] true with DbOk d1 => note_db s d1 | DbErr _ => s end).
+  assert (HF0 : FInv s0 /\ f_c s0 = f_c s /\ f_due s0 = f_due s /\ f_mgr s0 = f_mgr s /\ f_chan s0 = f_chan s /\ f_tasks s0 = f_tasks s).
+  { unfold s0. destruct (db_delete CS (c_db (f_c s)) T_towers [C_towers_tower_id] [t] true);
+      (split; [first [exact HF|apply (FInv_core s); auto]|repeat split; reflexivity]). }
+  destruct HF0 as [HF0 [Ec [Ed [Em [Ech Et]]]]]. rewrite Ec.
+  destruct (wt_remove_tower (f_c s) t) as [c' r] eqn:E.
+  destruct HF as [HI [HD [HV HT]]]. destruct (HV Hp) as [V1 [V2 [V3 [V4 V5]]]].
+  destruct (prim_remove_tower _ _ _ _ HI Hp Ek E) as [HI' [Hret [-> [Hp' [Hst Hfr]]]]].
+  cbn [fst]. rewrite Ed.
+  assert (R : forall k l, Rrow (c_db c') k l <-> Rrow (c_db (f_c s)) k l /\ k <> t) by (intros; apply Rrow_filter, Hfr; discriminate).
+  assert (P : forall k l, Prow (c_db c') k l <-> Prow (c_db (f_c s)) k l /\ k <> t) by (intros; apply Prow_filter, Hfr; discriminate).
+  assert (I : forall k l, Irow (c_db c') k l <-> Irow (c_db (f_c s)) k l /\ k <> t) by (intros; apply Irow_filter, Hfr; discriminate).
+  assert (M : forall k, Mrow (c_db c') k <-> Mrow (c_db (f_c s)) k /\ k <> t) by (intros; apply Mrow_filter, Hfr; discriminate).
+  assert (T : forall k, Trow (c_db c') k <-> Trow (c_db (f_c s)) k /\ k <> t) by (intros; apply Trow_filter, Hfr; discriminate).
+  destruct HD as [_ [U E0]].
+  split; [exact HI'|]. split; [|split].
+  - split; [apply HI'|]. split.
+    + intros k l Hm. unfold excl3. rewrite !R, !P, !I. destruct (N.eq_dec k t) as [->|Hn]; [tauto|].
+      assert (Hm0 : ~ Mrow (c_db (f_c s)) k) by (intros H; apply Hm, M; tauto). destruct (U k l Hm0) as [A [B C]]. tauto.
+    + intros k l Hin. cbn [f_due set_due] in Hin. apply filter_In in Hin. destruct Hin as [Hin Hn]. cbn in Hn.
+      apply negb_true_iff, N.eqb_neq in Hn. destruct (E0 k l Hin) as [A B]. split; [apply T; tauto|].
+      intros Hm. rewrite R, P, I. assert (Hm0 : ~ Mrow (c_db (f_c s)) k) by (intros H; apply Hm, M; tauto). specialize (B Hm0). tauto.
+  - intros _. cbn [f_c set_due wr_c]. split; [|split; [|split; [|split]]].
+    + intros k Hk. rewrite Hst in Hk. destruct (N.eqb k t) eqn:Ekt; [discriminate Hk|]. apply N.eqb_neq in Ekt. apply M. split; [apply V1, Hk|exact Ekt].
+    + intros k Hk l Hl. assert (Hkn : k <> t /\ knownc (f_c s) k).
+      { unfold knownc, amem in *. cbn [f_c set_due wr_c] in Hk. specialize (Hst k). unfold stat in Hst. destruct (N.eqb k t) eqn:Ekt; try rewrite Ekt in Hst.
+        - destruct (aget (c_towers c') k); cbn in Hst; [discriminate Hst|discriminate Hk].
+        - apply N.eqb_neq in Ekt. split; [exact Ekt|]. destruct (aget (c_towers c') k), (aget (c_towers (f_c s)) k); cbn in Hst; try discriminate; auto. }
+      apply P. split; [|tauto]. apply V2; [tauto|].
+      unfold tracked, retrier_pending in *. cbn [f_mgr f_chan set_due wr_c] in Hl. rewrite Em, Ech in Hl. exact Hl.
+    + intros k Hk. unfold tracked, retrier_pending, rstat in *. cbn [f_mgr f_chan set_due wr_c] in *. rewrite Em in *. rewrite Ech. apply V3, Hk.
+    + intros k r0 Hk. cbn [f_mgr set_due wr_c] in Hk. rewrite Em in Hk. eapply V4, Hk.
+    + intros k Hk. unfold rstat in *. cbn [f_mgr set_due wr_c] in Hk. rewrite Em in Hk. cbn [f_c set_due wr_c]. rewrite Hret. apply V5, Hk.
+  - apply (TaskInv_same s); [exact Et| |exact HT]. intros k. unfold rstat. cbn [f_mgr set_due wr_c]. rewrite Em. reflexivity.
+Qed.
+
+(* ---- commitment_revocation ---- *)
+Definition grows (d d' : db) : Prop :=
+  (forall k x, Rrow d k x -> Rrow d' k x) /\ (forall k x, Prow d k x -> Prow d' k x) /\
+  (forall k x, Irow d k x -> Irow d' k x) /\ (forall k, Mrow d k -> Mrow d' k) /\ (forall k, Trow d k <-> Trow d' k).
+Lemma grows_refl d : grows d d.  Proof. repeat split; auto. Qed.
+Lemma grows_trans a b c : grows a b -> grows b c -> grows a c.
+Proof.
+  intros [A1 [A2 [A3 [A4 A5]]]] [B1 [B2 [B3 [B4 B5]]]]. repeat split; auto.
+  - intros H. apply B5, A5, H.
+  - intros H. apply A5, B5, H.
+Qed.
+Lemma grows_eq d d' : d' = d -> grows d d'.  Proof. intros ->. apply grows_refl. Qed.
+
+Lemma add_pending_result c t l b dl : knownc c t ->
+  snd (wt_add_pending_appointment c t l b dl) = ROk \/ exists st, snd (wt_add_pending_appointment c t l b dl) = RAbort st.
+Proof.
+  unfold knownc, amem, wt_add_pending_appointment. destruct (aget (c_towers c) t); [|discriminate]. intros _.
+  destruct (memN l (su_pending s)); [left; reflexivity|]. destruct (dbm_store_pending_appointment (c_db c) t l b dl); [left|right; eexists]; reflexivity.
+Qed.
+
+Lemma knownc_stat c c' : (forall k, stat c' k = stat c k) -> forall k, knownc c' k <-> knownc c k.
+Proof. intros H k. unfold knownc. rewrite (stat_known c c' H k). tauto. Qed.
+
+Lemma FInv_rev_pend s l t send s' o :
+  FInv s -> poisoned s = false -> knownc (f_c s) t ->
+  ~ Prow (c_db (f_c s)) t l -> (~ Mrow (c_db (f_c s)) t -> ~ Rrow (c_db (f_c s)) t l /\ ~ Irow (c_db (f_c s)) t l) ->
+  rev_pend s l t send = (s', o) ->
+  FInv s' /\ f_due s' = f_due s /\ grows (c_db (f_c s)) (c_db (f_c s')) /\ (forall k, stat (f_c s') k = stat (f_c s) k) /\
+  (o = None -> Prow (c_db (f_c s')) t l /\ poisoned s' = false).
+Proof.
+  intros HF Hp Hk HnP HnRI. unfold rev_pend.
+  destruct (wt_add_pending_appointment (f_c s) t l BLOB DELAY) as [c2 r] eqn:E.
+  pose proof HF as [HI [HD [HV HT]]]. destruct (HV Hp) as [V1 [V2 [V3 [V4 V5]]]].
+  destruct (prim_add_pending _ _ _ _ _ _ _ HI Hp E) as [HI' [Hret [Hst [Hh [Heff Hrow]]]]].
+  pose proof (add_pending_result (f_c s) t l BLOB DELAY Hk) as Hres. rewrite E in Hres. cbn [snd] in Hres.
+  (* the database effect, uniformly *)
+  assert (Hdb : grows (c_db (f_c s)) (c_db c2) /\ DurInv (c_db c2) (f_due s) /\
+                (c_poisoned c2 = false -> (forall k x, Prow (c_db c2) k x <-> Prow (c_db (f_c s)) k x \/ (k = t /\ x = l)) /\
+                                          (forall k, Mrow (c_db c2) k <-> Mrow (c_db (f_c s)) k))).
+  { destruct Heff as [Ed|[-> [Hp2 [_ [T2 Hfr]]]]].
+    - rewrite Ed. split; [apply grows_refl|]. split; [exact HD|]. intros Hp2. split; [|tauto].
+      intros k x. split; [tauto|]. intros [H|[-> ->]]; [exact H|].
+      destruct Hres as [->|[st ->]]; [rewrite <- Ed; apply Hrow; auto|]. unfold healthy_or_abort in Hh. cbn in Hh. congruence.
+    - assert (ER : forall k x, Rrow (c_db c2) k x <-> Rrow (c_db (f_c s)) k x) by (intros; apply Rrow_ext, Hfr; discriminate).
+      assert (EI : forall k x, Irow (c_db c2) k x <-> Irow (c_db (f_c s)) k x) by (intros; apply Irow_ext, Hfr; discriminate).
+      assert (EM : forall k, Mrow (c_db c2) k <-> Mrow (c_db (f_c s)) k) by (intros; apply Mrow_ext, Hfr; discriminate).
+      assert (ET : forall k, Trow (c_db c2) k <-> Trow (c_db (f_c s)) k) by (intros; apply Trow_ext, Hfr; discriminate).
+      assert (EP : forall k x, Prow (c_db c2) k x <-> Prow (c_db (f_c s)) k x \/ (k = t /\ x = l)) by (intros; apply Prow_app, T2).
+      split; [|split; [|intros _; split; assumption]].
+      + repeat split; intros; try (apply ER; assumption); try (apply EI; assumption); try (apply EM; assumption); try (apply ET; assumption).
+        apply EP. left. assumption.
+      + destruct HD as [_ [U E0]]. split; [apply HI'|]. split.
+        * intros k x Hm. unfold excl3. rewrite !ER, !EI, !EP. assert (Hm0 : ~ Mrow (c_db (f_c s)) k) by (intros H; apply Hm, EM, H).
+          destruct (U k x Hm0) as [A [B C]]. repeat split; try tauto.
+          -- intros [H1 [H2|[-> ->]]]; [tauto|]. destruct (HnRI Hm0) as [N1 N2]. tauto.
+          -- intros [[H2|[-> ->]] H3]; [tauto|]. destruct (HnRI Hm0) as [N1 N2]. tauto.
+        * intros k x Hin. destruct (E0 k x Hin) as [A B]. split; [apply ET, A|]. intros Hm. rewrite ER, EI, EP.
+          assert (Hm0 : ~ Mrow (c_db (f_c s)) k) by (intros H; apply Hm, EM, H). specialize (B Hm0). tauto. }
+  destruct Hdb as [Hg [HD2 Hrows]].
+  assert (HF2 : FInv (set_c s c2)).
+  { apply FInv_client; [exact HF|exact HI'|exact HD2|]. intros Hp2. destruct (Hrows Hp2) as [EP EM].
+    split; [exact Hp|]. split; [|split; [|exact Hret]].
+    - intros k Hk'. apply EM, V1. rewrite <- Hst. exact Hk'.
+    - intros k Hk' x Hx. apply EP. left. apply V2; [apply (knownc_stat _ _ Hst), Hk'|exact Hx]. }
+  destruct r; inversion 1; subst; clear H; try (destruct Hres as [Hres|[st Hres]]; discriminate).
+  - (* stored: maybe hand it to the retrier *)
+    assert (Hp2 : c_poisoned c2 = false) by exact Hh.
+    destruct (Hrows Hp2) as [EP EM].
+    assert (Hrowl : Prow (c_db c2) t l) by (apply EP; right; split; reflexivity).
+    assert (Hpush : FInv (send_to_retrier (wr_c s c2) t l)).
+    { unfold send_to_retrier.
+      assert (Hgo : FInv (push_chan (wr_c s c2) t (DFresh l))).
+      { apply FInv_push; [exact HF2| |].
+        - intros _ _ x [<-|[]]. exact Hrowl.
+        - intros _ Hr. change (tracked (wr_c s c2) t) with (tracked s t). cbn [rdata_set].
+          apply NoDup_app_iff. split; [apply V3; exact Hr|]. split; [constructor; [tauto|constructor]|].
+          intros x Hx [<-|[]]. apply HnP. apply V2; assumption. }
+      destruct (aget (c_retriers (f_c (wr_c s c2))) t) as [st|]; [destruct (is_running st)|]; try exact Hgo; exact HF2. }
+    split; [destruct send; [exact Hpush|exact HF2]|].
+    split; [destruct send; [unfold send_to_retrier; dmatch|]; reflexivity|].
+    split; [destruct send; [unfold send_to_retrier; dmatch|]; exact Hg|].
+    split; [destruct send; [unfold send_to_retrier; dmatch|]; exact Hst|].
+    intros _. split; destruct send; try (unfold send_to_retrier; dmatch); assumption.
+  - (* the store aborted *)
+    split; [exact HF2|]. split; [reflexivity|]. split; [exact Hg|]. split; [exact Hst|discriminate].
+Qed.
